@@ -102,15 +102,22 @@ structure CSRo (α : Type) where
 
 namespace CSRo
 def default : CSRo α := ⟨0, 0, 0, none, none, none⟩
+/-- `row_start_indices_` is allocated and copied only when the source has one
+    (a default-constructed or moved-from matrix has `nullptr`) -/
 def copyCtor (h : Nat) (o : CSRo α) : Option (Nat × CSRo α) := do
-  let (h1, v) := alloc h o.nnz (Scalar.n 0 : α); let (h2, c) := alloc h1 o.nnz (0 : Int); let (h3, r) := alloc h2 (o.rows + 1) (0 : Int)
-  let v' ← copyN v o.values o.nnz; let c' ← copyN c o.colIdx o.nnz; let r' ← copyN r o.rowStart (o.rows + 1)
+  let (h1, v) := alloc h o.nnz (Scalar.n 0 : α); let (h2, c) := alloc h1 o.nnz (0 : Int)
+  let (h3, r) := if o.rowStart.isSome then alloc h2 (o.rows + 1) (0 : Int) else (h2, none)
+  let v' ← copyN v o.values o.nnz; let c' ← copyN c o.colIdx o.nnz
+  let r' ← if o.rowStart.isSome then copyN r o.rowStart (o.rows + 1) else pure r
   pure (h3, ⟨o.rows, o.cols, o.nnz, v', c', r'⟩)
 def copyAssign (h : Nat) (t o : CSRo α) : Option (Nat × CSRo α) := do
-  let (h3, v, c, r) := if t.nnz ≠ o.nnz ∨ t.rows ≠ o.rows then
-      (let (h1, v) := alloc h o.nnz (Scalar.n 0 : α); let (h2, c) := alloc h1 o.nnz (0 : Int); let (h3, r) := alloc h2 (o.rows + 1) (0 : Int); (h3, v, c, r))
+  let (h3, v, c, r) := if t.nnz ≠ o.nnz ∨ t.rows ≠ o.rows ∨ t.rowStart.isSome ≠ o.rowStart.isSome then
+      (let (h1, v) := alloc h o.nnz (Scalar.n 0 : α); let (h2, c) := alloc h1 o.nnz (0 : Int)
+       let (h3, r) := if o.rowStart.isSome then alloc h2 (o.rows + 1) (0 : Int) else (h2, none)
+       (h3, v, c, r))
     else (h, t.values, t.colIdx, t.rowStart)
-  let v' ← copyN v o.values o.nnz; let c' ← copyN c o.colIdx o.nnz; let r' ← copyN r o.rowStart (o.rows + 1)
+  let v' ← copyN v o.values o.nnz; let c' ← copyN c o.colIdx o.nnz
+  let r' ← if o.rowStart.isSome then copyN r o.rowStart (o.rows + 1) else pure r
   pure (h3, ⟨o.rows, o.cols, o.nnz, v', c', r'⟩)
 def moved : CSRo α → CSRo α := fun _ => ⟨0, 0, 0, none, none, none⟩
 def moveCtor (o : CSRo α) : CSRo α × CSRo α := (o, moved o)
